@@ -442,6 +442,9 @@ def run(ck: Check):
     real = Real()
     ck.pins_changed(PINS)
     ck.run_gen("locale")
+    # tie by translation: AgVerif.Gen.PyLocale is the statement-by-statement translation (gen/py2lean.py) of
+    # _unpack_language_or_region / _pack_language_or_region; Props/C30.lean proves gen_unpack_eq / gen_pack_eq
+    ck.run_gen("py2lean_c30")
     ck.prove(exes=["drv_C30"])
     drv = Driver("drv_C30")
     rng = ck.rng
@@ -556,6 +559,9 @@ def run(ck: Check):
     ck.cover(dist={"corr_unpack": 131072, "corr_pack": 2 * len(strs), "corr_set": len(sets), "corr_get": 2 * len(words)})
     ck.assumptions.append("Python str / ord / chr / str.split are modelled on lists of code points; "
                           "struct.unpack('<I') of the locale field is modelled as the 32-bit word itself")
+    ck.assumptions.append("tie by translation (_unpack_/_pack_language_or_region): gen/py2lean.py reads the Python subset it "
+                          "documents correctly (int = Int, str/list = list of ints, & | << >> as in Model/PyInt.lean, "
+                          "IndexError/ValueError = none); declared parameter types char_in: list of ints / str, char_base: int")
     ck.notes.append("model and theorems describe the tree with fixes/C30-pack-three-letter-locale.diff applied")
 
 
